@@ -41,6 +41,26 @@ theorem C12_pending_means_waiting (ls : List Label) (s : St) (h : run init ls = 
   refine ⟨fun hs => ?_, hi.pending_ok w hw hp⟩
   exact (C12_stopped ls s h hs).2 w hw hp
 
+/-- **the reader cannot get stuck on the way to stopping.** Whatever state the sender and the other waiters are in:
+an undecodable item, a close or a reset at the head of the wire takes the running reader to `stopping`; a decoded
+message nobody waits for does the same; and from `stopping` the stop step is always enabled and leads to `stopped` -
+so every way the connection can go wrong ends in the state `C12_stopped` speaks about. -/
+theorem C12_stop_path (s : St) :
+    (s.reader = .running → ∀ rest, s.wire = .bad :: rest →
+      ∃ s', step s .readerDecode = some s' ∧ s'.reader = .stopping) ∧
+    (∀ m, s.reader = .decoded m → s.cache m.hbh = none →
+      ∃ s', step s .readerRemove = some s' ∧ s'.reader = .stopping) ∧
+    (s.reader = .stopping → ∃ s', step s .readerStop = some s' ∧ s'.reader = .stopped) := by
+  refine ⟨?_, ?_, ?_⟩
+  · intro hr rest hw
+    refine ⟨{ s with wire := rest, reader := .stopping }, ?_, rfl⟩
+    simp [step, hr, hw]
+  · intro m hr hc
+    refine ⟨{ s with reader := .stopping }, ?_, rfl⟩
+    simp [step, hr, hc]
+  · intro hr
+    simp [step, hr]
+
 /-- non-vacuity: a run that registers, writes, gets answered, and stops -/
 example : ∃ s, run init [.sendBegin 7, .write, .peerEmit (.msg ⟨7, 0⟩), .readerDecode, .readerRemove,
     .sendReturn, .readerDeliver, .peerEmit .bad, .readerDecode, .readerStop] = some s ∧
